@@ -58,6 +58,23 @@ func runC13(c *Ctx) {
 			c.see(fn)
 			key := "list@" + funcName(fn)
 			var bad []string
+			// a list is published exactly when it is non-empty (a stricter test drops small sets)
+			pubChecked := map[ssa.Instruction]bool{}
+			pubGuard := func(x ssa.Instruction) {
+				if pubChecked[x] {
+					return
+				}
+				pubChecked[x] = true
+				for _, g := range guardsOfInstr(x) {
+					if cm, ok := g.asCmp(); ok {
+						if cl, ok := cm.X.(*ssa.Call); ok && callName(cl) == "(*"+N+"List).Len" {
+							if k, isC := constInt(cm.Y); !isC || k != 0 || cm.Op != token.GTR {
+								bad = append(bad, "published only under Len() "+cm.Op.String()+" "+exprStr(cm.Y)+" (a one-prefix set vanishes) at "+p.pos(instrPos(x)))
+							}
+						}
+					}
+				}
+			}
 			w := &pathWalker{SkipPanics: true}
 			w.Instr = func(x ssa.Instruction, st pathState) {
 				s := st.(*listState)
@@ -82,12 +99,16 @@ func runC13(c *Ctx) {
 							bad = append(bad, "matched while unsorted at "+p.pos(instrPos(x)))
 						}
 					case n == "builtin:append":
+						pubGuard(x)
 						if s.dirty {
 							bad = append(bad, "published (appended to a matcher group) while unsorted at "+p.pos(instrPos(x)))
 						}
 						s.everPub = true
 					default:
 						// any other call receiving the list may load into it
+						if s.everPub {
+							bad = append(bad, "handed to "+n+" (which may load into it) after it was published, at "+p.pos(instrPos(x)))
+						}
 						s.dirty = true
 					}
 				case *ssa.MakeInterface:
@@ -99,6 +120,7 @@ func runC13(c *Ctx) {
 						if _, local := y.Addr.(*ssa.Alloc); local {
 							s.alias[y.Addr] = true
 						} else {
+							pubGuard(x)
 							if s.dirty {
 								bad = append(bad, "stored while unsorted at "+p.pos(instrPos(x)))
 							}
@@ -281,6 +303,39 @@ func runC13(c *Ctx) {
 		c.check(good && n >= 2, "to6@Contains", ct.Pos(), "the queried address goes through to6 before search and containment test", "the queried address is not mapped through to6: IPv4 addresses never match the IPv6-form prefixes")
 	}
 
+	if t6 := c.fn(relNetlist, "", "to6"); t6 != nil {
+		good, n := true, 0
+		for _, r := range returnsOf(t6) {
+			n++
+			v := returnedValues(r)[0]
+			if v == ssa.Value(t6.Params[0]) {
+				is6 := false
+				for _, g := range guardsOfInstr(r) {
+					if b, truth := g.asBool(); b != nil && truth {
+						if cl, ok := b.(*ssa.Call); ok && callName(cl) == "(net/netip.Addr).Is6" && cl.Call.Args[0] == ssa.Value(t6.Params[0]) {
+							is6 = true
+						}
+					}
+				}
+				if !is6 {
+					good = false
+				}
+				continue
+			}
+			cl, ok := v.(*ssa.Call)
+			if !ok || callName(cl) != "net/netip.AddrFrom16" {
+				good = false
+				continue
+			}
+			a, ok := cl.Call.Args[0].(*ssa.Call)
+			if !ok || callName(a) != "(net/netip.Addr).As16" || a.Call.Args[0] != ssa.Value(t6.Params[0]) {
+				good = false
+			}
+		}
+		c.check(good && n == 2, "to6-is-the-mapped-form", t6.Pos(), "to6 = addr if Is6, else AddrFrom16(addr.As16()) (the ::ffff:a.b.c.d form)",
+			"to6 is not {addr under Is6, AddrFrom16(addr.As16()) otherwise}: an IPv4 address and its IPv4-mapped IPv6 form are no longer the same address")
+	}
+
 	// ---------------------------------------------------------------- R4
 	c.rule("R4", "Contains refuses unsorted lists and invalid addresses; every verdict comes from the search", 3)
 	if ct := c.fn(relNetlist, "List", "Contains"); ct != nil {
@@ -375,6 +430,33 @@ func runC13(c *Ctx) {
 					}
 				}
 				good = vals[32] && vals[128] && len(vals) == 2 && v6
+				// exactly the family decides: no further condition on any edge (e.g. "&& !Is4In6()")
+				base := map[string]bool{}
+				for _, g := range guardsOfInstr(ci) {
+					base[guardKey(g)] = true
+				}
+				if len(phi.Edges) != 2 {
+					good = false
+				}
+				for i := range phi.Edges {
+					for _, g := range guardsOf(phi.Block().Preds[i]) {
+						if base[guardKey(g)] || phi.Block().Preds[i] == nil {
+							continue
+						}
+						if g.If != nil && instrDominates(g.If, ci) && len(phi.Block().Preds) > 0 && g.If.Block().Dominates(phi.Block()) && !g.If.Block().Dominates(phi.Block().Preds[i]) {
+							continue
+						}
+						v, _ := g.asBool()
+						if cl, ok := v.(*ssa.Call); ok && callName(cl) == "(net/netip.Addr).Is6" {
+							continue
+						}
+						// guards that dominate the whole diamond are preconditions, not part of the decision
+						if g.If.Block().Dominates(phi.Block()) && guardHoldsAt(g, phi.Block()) {
+							continue
+						}
+						good = false
+					}
+				}
 				// the address stored is the very address whose family decided the length
 				for i := range phi.Edges {
 					for _, g := range guardsOf(phi.Block().Preds[i]) {
@@ -408,4 +490,14 @@ func runC13(c *Ctx) {
 		checkLineLoader(c, f, func(ci *ssa.Call) bool { return callName(ci) == relNetlist+".LoadFromText" }, "the prefix")
 	}
 
+}
+
+// guardHoldsAt: guard g (an edge of g.If) holds on every path into block b.
+func guardHoldsAt(g guard, b *ssa.BasicBlock) bool {
+	for _, h := range guardsOf(b) {
+		if h.If == g.If && h.Truth == g.Truth {
+			return true
+		}
+	}
+	return false
 }
